@@ -337,6 +337,143 @@ fn stream_tree<D: ByteDev>(ctx: &mut Ctx, label: &str, max: usize) {
     ctx.part(label, json!({"engine": "B stream tree", "max_stream_length": max, "stream_positions_checked": total, "violating_positions": nbad, "chunks_rerun_with_panic_guards": slow}));
 }
 
+// ---- pumped streams: u = w^k for every word w of length <= 2 (<= 3 thorough), k up to `reps` ------------------
+// A closed BFS covers unbounded histories only as long as the state space stays small; state that grows with
+// the history (a counter, a log, a cache) pushes the interesting states beyond any state cap. Repeating every
+// short word many times reaches exactly those states: the 9th unknown byte, the 256th error.
+
+pub struct PumpBad {
+    pub key: String,
+    pub text: String,
+    pub word: Vec<u8>,
+    pub reps: usize,
+    pub upto: usize,
+    pub expected: String,
+    pub observed: String,
+}
+
+/// mode 0: lock-step with R-AUTO (C01/C02); mode 1: self-referential resync oracle (C07): if the word ends in an
+/// event or error on a fresh decoder, every repetition must answer exactly like the first; mode 2: panics only (C08)
+pub fn pump<D: ByteDev>(max_len: usize, reps: usize, mode: u8) -> (u64, Vec<PumpBad>) {
+    let n_words: usize = (1..=max_len).map(|l| 256usize.pow(l as u32)).sum();
+    let chunks = 256usize;
+    let results = par_chunks(chunks, |c| {
+        let mut n = 0u64;
+        let mut bads: Vec<PumpBad> = vec![];
+        let mut wi = c;
+        while wi < n_words {
+            // decode word index -> bytes
+            let mut idx = wi;
+            let mut len = 1;
+            loop {
+                let cnt = 256usize.pow(len as u32);
+                if idx < cnt {
+                    break;
+                }
+                idx -= cnt;
+                len += 1;
+            }
+            let word: Vec<u8> = (0..len).map(|i| ((idx >> (8 * i)) & 0xFF) as u8).collect();
+            wi += chunks;
+            let mut d = D::fresh();
+            let mut ctx = CTX2_INIT;
+            let mut first: Vec<Result<EvR, String>> = vec![];
+            let mut stop = false;
+            for rep in 0..reps {
+                for (bi, b) in word.iter().enumerate() {
+                    let r = feed_guarded(&mut d, *b);
+                    n += 1;
+                    let (allowed, nc) = ref_step(D::SET, ctx, *b);
+                    ctx = nc;
+                    let obs = match &r {
+                        Ok(x) => fmt_ev(x),
+                        Err(p) => p.clone(),
+                    };
+                    let mut fail: Option<(String, String)> = None; // (kind, expected)
+                    match mode {
+                        0 => {
+                            if !matches!(&r, Ok(x) if allowed.admits(x)) {
+                                fail = Some(("pumped".into(), allowed.text()));
+                            }
+                        }
+                        1 => {
+                            if rep == 0 {
+                                first.push(r.clone());
+                            } else if first.last().map_or(false, |l| !matches!(l, Ok(Ok(None)))) && first[bi] != r {
+                                let e = match &first[bi] {
+                                    Ok(x) => fmt_ev(x),
+                                    Err(p) => p.clone(),
+                                };
+                                fail = Some(("resync-pumped".into(), format!("{} (what the first repetition gave)", e)));
+                            }
+                        }
+                        _ => {
+                            if r.is_err() {
+                                fail = Some(("panic-pumped".into(), "returns normally".into()));
+                            }
+                        }
+                    }
+                    if let Some((kind, expected)) = fail {
+                        if bads.len() < 6 {
+                            let hexw: Vec<String> = word.iter().map(|x| format!("{:02X}", x)).collect();
+                            bads.push(PumpBad {
+                                key: format!("{}/{}/{}", D::component(), kind, hexw.join("")),
+                                text: format!(
+                                    "{}: the byte word [{}] repeated: in repetition {} its byte {} must give {} but gives {}",
+                                    D::component(), hexw.join(" "), rep + 1, bi + 1, expected, obs
+                                ),
+                                word: word.clone(),
+                                reps: rep + 1,
+                                upto: bi + 1,
+                                expected,
+                                observed: obs,
+                            });
+                        }
+                        stop = true;
+                        break;
+                    }
+                    if r.is_err() {
+                        stop = true;
+                        break;
+                    }
+                }
+                if stop {
+                    break;
+                }
+            }
+        }
+        (n, bads)
+    });
+    let mut total = 0;
+    let mut out = vec![];
+    for (n, b) in results {
+        total += n;
+        out.extend(b);
+    }
+    (total, out)
+}
+
+pub fn pump_ops(b: &PumpBad) -> Vec<Op> {
+    let mut ops = vec![];
+    for rep in 0..b.reps {
+        let upto = if rep + 1 == b.reps { b.upto } else { b.word.len() };
+        ops.extend(b.word[..upto].iter().map(|x| Op::Byte(*x)));
+    }
+    ops
+}
+
+fn pump_report<D: ByteDev>(ctx: &mut Ctx, label: &str, max_len: usize, reps: usize, mode: u8) {
+    let (n, bads) = pump::<D>(max_len, reps, mode);
+    let nb = bads.len();
+    for b in bads {
+        let ops = pump_ops(&b);
+        ctx.violation(&b.key, &b.text, Replay::one(&D::component(), ops, &b.expected, Some(b.observed.clone())));
+    }
+    ctx.evaluations += n;
+    ctx.traces_validated += n;
+    ctx.part(label, json!({"engine": "B pumped streams w^k", "max_word_length": max_len, "repetitions": reps, "stream_positions_checked": n, "violations_recorded": nb}));
+}
+
 fn readme_note(ctx: &mut Ctx) {
     let repo = crate::repo_dir();
     match readme_check(&repo) {
@@ -384,6 +521,11 @@ pub fn c01(ctx: &mut Ctx) -> (u64, String) {
     let depth = if ctx.thorough() { 4 } else { 3 };
     stream_tree::<ScancodeSet2>(ctx, "tree:ScancodeSet2", depth);
     stream_tree::<Keyboard<Echo, ScancodeSet2>>(ctx, "tree:Keyboard::add_byte(Set2)", if ctx.thorough() { 3 } else { 2 });
+    pump_report::<ScancodeSet2>(ctx, "pump:ScancodeSet2", 2, 300, 0);
+    if ctx.thorough() {
+        pump_report::<ScancodeSet2>(ctx, "pump:ScancodeSet2 (3-byte words)", 3, 12, 0);
+        pump_report::<Keyboard<Echo, ScancodeSet2>>(ctx, "pump:Keyboard::add_byte(Set2)", 2, 300, 0);
+    }
     readme_note(ctx);
     ctx.sample(json!({"stream": ["E0", "F0", "70"], "reference": "Ok(None), Ok(None), Ok(Insert Up)"}));
     ctx.sample(json!({"stream": ["E1", "14", "77"], "reference": "Ok(None), Ok(RControl2 Down), Ok(NumpadLock Down)"}));
@@ -404,6 +546,11 @@ pub fn c02(ctx: &mut Ctx) -> (u64, String) {
     let depth = if ctx.thorough() { 4 } else { 3 };
     stream_tree::<ScancodeSet1>(ctx, "tree:ScancodeSet1", depth);
     stream_tree::<Keyboard<Echo, ScancodeSet1>>(ctx, "tree:Keyboard::add_byte(Set1)", if ctx.thorough() { 3 } else { 2 });
+    pump_report::<ScancodeSet1>(ctx, "pump:ScancodeSet1", 2, 300, 0);
+    if ctx.thorough() {
+        pump_report::<ScancodeSet1>(ctx, "pump:ScancodeSet1 (3-byte words)", 3, 12, 0);
+        pump_report::<Keyboard<Echo, ScancodeSet1>>(ctx, "pump:Keyboard::add_byte(Set1)", 2, 300, 0);
+    }
     readme_note(ctx);
     ctx.sample(json!({"stream": ["E0", "1C", "9C"], "reference": "Ok(None), Ok(NumpadEnter Down), Ok(Return Up)"}));
     ctx.sample(json!({"stream": ["70", "F0"], "reference": "Ok(Oem11 Down), Ok(Oem11 Up)"}));
@@ -764,6 +911,12 @@ pub fn c07(ctx: &mut Ctx) -> (u64, String) {
     let depth = if ctx.thorough() { 4 } else { 3 };
     c07_tree::<ScancodeSet2>(ctx, "difftree:ScancodeSet2", depth, 2);
     c07_tree::<ScancodeSet1>(ctx, "difftree:ScancodeSet1", depth, 1);
+    pump_report::<ScancodeSet2>(ctx, "pump-resync:ScancodeSet2", 2, 300, 1);
+    pump_report::<ScancodeSet1>(ctx, "pump-resync:ScancodeSet1", 2, 300, 1);
+    if ctx.thorough() {
+        pump_report::<ScancodeSet2>(ctx, "pump-resync:ScancodeSet2 (3-byte words)", 3, 12, 1);
+        pump_report::<ScancodeSet1>(ctx, "pump-resync:ScancodeSet1 (3-byte words)", 3, 12, 1);
+    }
     ctx.sample(json!({"stream": ["E0", "00", "1C"], "check": "E0 00 is an error; afterwards 1C must decode as a fresh decoder would (A Down in Set 2)"}));
     ctx.sample(json!({"stream": ["E1", "F0", "FF", "E0"], "check": "after the error on FF, E0 is a prefix again"}));
     // non-trivial = terminal edges out of non-initial states + all continuation checks; measured as terminal edges
